@@ -115,6 +115,7 @@ type Morass struct {
 	chunkSize int
 	pool      chan sorter
 	writable  chan sorter
+	writers   sync.WaitGroup
 
 	filesLock sync.Mutex
 	files     files
@@ -181,6 +182,7 @@ func (m *Morass) Push(e LessInterface) error {
 	if len(m.chunk) == m.chunkSize {
 		vstep(m, "push.spill", 0)
 		m.writable <- m.chunk
+		m.writers.Add(1)
 		go m.write()
 		m.chunk = <-m.pool
 		vstep(m, "push.gotbuf", 0)
@@ -200,6 +202,7 @@ func (m *Morass) Push(e LessInterface) error {
 }
 
 func (m *Morass) write() {
+	defer m.writers.Done()
 	writing := <-m.writable
 	vstep(m, "write.recv", 0)
 	defer func() {
@@ -260,6 +263,7 @@ func (m *Morass) Len() int64 { return m.len }
 // and write out final data.
 func (m *Morass) Finalise() error {
 	vstep(m, "final.enter", 0)
+	m.writers.Wait()
 	if err := m.err(); err != nil {
 		return err
 	}
@@ -272,6 +276,7 @@ func (m *Morass) Finalise() error {
 			if len(m.chunk) > 0 {
 				m.writable <- m.chunk
 				m.chunk = nil
+				m.writers.Add(1)
 				m.write()
 				if err := m.err(); err != nil {
 					return err
